@@ -285,7 +285,7 @@ theorem nextActivation_in_actrange (p : ActSlot ℝ) (h act actDot : ℝ) (hl : 
 
 example : ∃ p : ActSlot ℝ, p.actlimited = true ∧ p.dyntype ≠ RK4.mjDYN_DCMOTOR ∧ p.lo ≤ p.hi ∧
     nextActivation p (1/500) (9/10) 1000 = 1 :=
-  ⟨⟨RK4.mjDYN_FILTER, true, 0, -1, 1, 0, 0, 0, 0, 0, 0, 0, 0, 0, 0⟩, rfl, by decide, by norm_num, by
+  ⟨⟨RK4.mjDYN_FILTER, true, 0, -1, 1, 0, 0, 0, 0, 0, 0, 0, 0, 0, 0, 1⟩, rfl, by decide, by norm_num, by
     simp only [nextActivation, nextActRaw, RK4.mjDYN_FILTER, RK4.mjDYN_FILTEREXACT, RK4.mjDYN_DCMOTOR, mju_clip_eq]
     norm_num⟩
 
@@ -295,7 +295,8 @@ theorem nextActivation_dcIntegral_bounded (p : ActSlot ℝ) (h act actDot : ℝ)
     (hb : p.offset ≠ (dcmotorSlots p).bristle) (hi : 0 < p.dynprm8) :
     -p.dynprm8 ≤ nextActivation p h act actDot ∧ nextActivation p h act actDot ≤ p.dynprm8 := by
   have h1 : ¬ (p.dyntype ≠ RK4.mjDYN_DCMOTOR ∧ p.actlimited = true) := fun hh => hh.1 hd
-  have h2 : p.dyntype ≠ RK4.mjDYN_FILTEREXACT := by rw [hd]; decide
+  have h2 : ¬ (p.dyntype = RK4.mjDYN_FILTEREXACT ∧ p.offset = p.actnum - 1) := fun hh => by
+    have := hh.1; rw [hd] at this; exact absurd this (by decide)
   have h3 : (MjNum.ofInt 0 : ℝ) < p.dynprm8 := by simpa [real_ofInt] using hi
   simp only [nextActivation, if_neg h1, nextActRaw, if_neg h2, if_pos hd, nextActDC, if_neg hc, if_neg hb, if_pos ho,
     if_pos h3]
@@ -311,11 +312,22 @@ theorem nextActivation_euler_def (p : ActSlot ℝ) (h act actDot : ℝ) (h1 : p.
 
 /-- `filterexact` (documented: `w' = w + (u − w)(1 − e^{−h/t})` with `ẇ = (u − w)/t`), for t ≥ mjMINVAL -/
 theorem nextActivation_filterexact_def (p : ActSlot ℝ) (h act u : ℝ) (hd : p.dyntype = RK4.mjDYN_FILTEREXACT)
-    (hl : p.actlimited = false) (ht : minval ≤ p.dynprm0) :
+    (ho : p.offset = p.actnum - 1) (hl : p.actlimited = false) (ht : minval ≤ p.dynprm0) :
     nextActivation p h act ((u - act) / p.dynprm0) = act + (u - act) * (1 - Real.exp (-h / p.dynprm0)) := by
   have h0 : ¬ (p.dyntype ≠ RK4.mjDYN_DCMOTOR ∧ p.actlimited = true) := by simp [hl]
-  simp only [nextActivation, if_neg h0, nextActRaw, if_pos hd]
+  simp only [nextActivation, if_neg h0, nextActRaw, if_pos (And.intro hd ho)]
   exact filterExact_eq _ _ _ _ ht
+
+/-- the slots that precede the actuator's own activation (plugin state of a `filterexact` actuator) are advanced by
+plain Euler, not by the exact filter -/
+theorem nextActivation_filterexact_otherSlot (p : ActSlot ℝ) (h act actDot : ℝ) (hd : p.dyntype = RK4.mjDYN_FILTEREXACT)
+    (ho : p.offset ≠ p.actnum - 1) (hl : p.actlimited = false) :
+    nextActivation p h act actDot = act + h * actDot := by
+  have h0 : ¬ (p.dyntype ≠ RK4.mjDYN_DCMOTOR ∧ p.actlimited = true) := by simp [hl]
+  have h1 : ¬ (p.dyntype = RK4.mjDYN_FILTEREXACT ∧ p.offset = p.actnum - 1) := fun hh => ho hh.2
+  have h2 : p.dyntype ≠ RK4.mjDYN_DCMOTOR := by rw [hd]; decide
+  simp only [nextActivation, if_neg h0, nextActRaw, if_neg h1, if_neg h2]
+  ring
 
 /-- both activation loops of `mj_advance` on one actuator's block: if the re-anchoring does not apply (not an
 integrator, or wrap period ≤ 0 and not an SO3 servo) every activation of an actlimited actuator ends inside
